@@ -59,13 +59,14 @@ def dumpChart (c : Chart) : String :=
 open Chartparse.Py in
 def showPy : M Val → String
   | .ok (.int n) => s!"int {n}" | .ok (.flt x) => s!"flt {showRat x}" | .ok (.bool b) => s!"bool {b}"
-  | .ok (.td us) => s!"td {us}" | .ok .none => "none" | .ok (.enum n) => s!"enum {n}" | .ok (.obj _) => "obj" | .error e => showErr e
+  | .ok (.td us) => s!"td {us}" | .ok .none => "none" | .ok (.enum n) => s!"enum {n}" | .ok (.obj _) => "obj" | .ok (.ints _) => "ints" | .error e => showErr e
 
 open Chartparse.Py in
 def parsePyVal (s : String) : Val :=
   match s.splitOn ":" with
   | ["i", n] => .int n.toInt! | ["f", x] => .flt (parseRat x) | ["t", n] => .td n.toInt!
-  | ["b", v] => .bool (v == "1") | ["o", bits] => .obj (bits.toList.map (· == '1')) | _ => .none
+  | ["b", v] => .bool (v == "1") | ["o", bits] => .obj (bits.toList.map (· == '1'))
+  | ["l", xs] => .ints (if xs == "-" then [] else (xs.splitOn ";").map String.toInt!) | _ => .none
 
 /-- prefix-notation expression: `int n` | `var x` | `bin op a b` | `cmp op a b` | `round a` | `roundN n a` | `intOf a` | `cast a` |
     `abs a` | `tsec a` | `tdus a`; returns the expression and the unread tokens -/
@@ -101,6 +102,7 @@ def runLeaf (name : String) (args : List String) : String :=
   | "valid", [x] => showPy (evalBody [("self.bpm", x)] bpmValidate)
   | "nps", [s, e, c] => showPy (evalBody [("start_time", s), ("end_time", e), ("num_events_to_consider", c)] notesPerSecond)
   | "anchor", [us] => showPy (valueOf [("data.microseconds", us)] anchorTimestamp "timestamp")
+  | "scan", [tick, start, ticks] => showPy (evalBody [("tick", tick), ("start_iteration_index", start), ("self[].tick", ticks)] indexOfProximalEvent)
   | "tickadd", [a, b] => showPy (evalBody [("a", a), ("b", b)] tickAdd)
   | "after", [tick, e] => showPy (evalBody [("tick", tick), ("self.end_tick", e)] tickIsAfterEvent)
   | "during", [tick, st, aft] => showPy (evalBody [("tick", tick), ("self.tick", st), ("self.tick_is_after_event(tick)", aft)] tickIsDuringEvent)
